@@ -234,7 +234,7 @@ PROPS["C06"] = dict(
     level_note="The peak factor and the SNR floors are calibrated empirical bounds (src/props/c06_floors.inc, tools/c06_calibrate.py, DESIGN 3.7): a marginal quality regression (a few dB) is below the resolution of this check; delays, channel swaps, sign errors, a channel or band decoded as something else (SNR near 0 dB) and broadband noise at -20 dB are not. Buckets whose calibrated floor is below 3 dB (low settings legitimately discard or merge such content) are undecidable and labelled so.",
     rule="case = configuration + signal class and parameters + silent mask + N; non-trivial = input RMS above -40 dBFS (or some channels silent) and at least 6 long blocks; distinct by hash of the case description",
     require_labels=["alignment checked (lag 0 is the correlation maximum)", "channel order checked", "SNR checked", "SNR checked (per channel, calibrated bucket)", "SNR checked (upper band)", "quality monotonicity checked", "class 0", "class 1", "class 2", "class 3", "some channels silent", "silent / sounding channel energies checked"],
-    assumptions=["calibration table src/props/c06_floors.inc (worst SNR per bucket on the unchanged tree)"],
+    assumptions=["calibration table src/props/c06_floors.inc (worst SNR per bucket on the unchanged tree)", "known finding D34 (open): tones between 0.715 and 0.785 of Nyquist are not generated for rates 9000..14999 Hz"],
 )
 
 PROPS["C02"] = dict(
